@@ -27,6 +27,7 @@ func init() { families["sources"] = sourcesFamily }
 var sourceFns = map[string]bool{"Emit": true, "Unfold": true, "Throttling": true}
 
 func sourceFn(fd *ast.FuncDecl) string {
+	fd = prepass(currentFile, fd)
 	fn := &stFn{fd: fd, name: fd.Name.Name, chans: map[string]*stChan{}, boundErr: map[string]bool{}, errVars: map[string]bool{},
 		boolVars: map[string]bool{}, valVars: map[string]string{}, closNames: map[string]bool{}, tyMap: map[string]string{},
 		timed: true, durNames: map[string]bool{}}
@@ -84,7 +85,7 @@ func sourceFn(fd *ast.FuncDecl) string {
 	}
 	type gor struct{ body *ast.BlockStmt }
 	gors := []gor{}
-	for _, st := range stmts[:len(stmts)-1] {
+	for sti, st := range stmts[:len(stmts)-1] {
 		switch x := st.(type) {
 		case *ast.AssignStmt:
 			if x.Tok == token.DEFINE && len(x.Lhs) == 1 && len(x.Rhs) == 1 && len(gors) == 0 {
@@ -124,7 +125,7 @@ func sourceFn(fd *ast.FuncDecl) string {
 				gors = append(gors, gor{lit.Body})
 				continue
 			}
-			if b := resolveGoCall(currentFile, x.Call); b != nil {
+			if b := resolveCallEx(currentFile, x.Call, false, stmts[sti+1:]); b != nil {
 				gors = append(gors, gor{b})
 				continue
 			}
